@@ -1840,14 +1840,20 @@ class UTPM(Ring, RawAlgorithmsMixIn):
             return tmp
 
         else:
-            retval = numpy.zeros((N,N))
+            # the full symmetric derivative tensor of shape (N,)*d (the Hessian for d = 2):
+            # entry [i_1,...,i_d] is the partial derivative w.r.t. x_{i_1},...,x_{i_d}, i.e.
+            # alpha! times the Taylor coefficient of the multi-index alpha of that entry
+            retval = numpy.zeros((N,)*d, dtype=tmp.dtype)
             mi = exint.generate_multi_indices(N,d)
             pos = exint.convert_multi_indices_to_pos(mi)
 
             for ni in range(mi.shape[0]):
                 # print 'ni=',ni, mi[ni], pos[ni], tmp[ni]
+                fact = 1
+                for m in mi[ni]:
+                    fact *= math.factorial(int(m))
                 for perm in exint.generate_permutations(list(pos[ni])):
-                    retval[perm[0],perm[1]] = tmp[ni]*numpy.max(mi[ni])
+                    retval[tuple(perm)] = tmp[ni]*fact
 
             return retval
 
